@@ -67,6 +67,9 @@ type scenario struct {
 	// glitch mode: the holder's GlitchAt-th backend operation after its Mkdir of the lock directory fails once with a
 	// transient error (the backend is left untouched by that operation); everything else is on time
 	GlitchAt int
+	// Reentrant > 0: while the lock is held through a lock object, another goroutine calls LockWithTimeout(Reentrant) on
+	// that same object (a shared ILock, a re-entrant attempt); it cannot get the lock, and the holder's heart beat must go on
+	Reentrant time.Duration
 }
 
 type world struct {
@@ -257,6 +260,14 @@ func body(sc scenario) func(x *gosim.Exec) {
 				close(w.dead)
 			}
 		})
+		if sc.Reentrant > 0 {
+			x.Go("same-object", 0, func() {
+				<-acquired
+				time.Sleep(7*time.Millisecond + 300*time.Microsecond)
+				err := holder.LockWithTimeout(x.Ctx(), sc.Reentrant)
+				x.Note("LockWithTimeout(%v) on the holder's own lock object returned %v", sc.Reentrant, err)
+			})
+		}
 		if sc.Mode != "death" {
 			for i, ob := range sc.Observers {
 				i, ob := i+1, ob
@@ -448,6 +459,10 @@ func scenarios() []scenario {
 			{Calls: rep("IsStale", 55), Gap: 7 * time.Millisecond, Offset: 100 * time.Microsecond},
 			{Calls: rep("TryLock-override", 29), Gap: 13 * time.Millisecond, Offset: 200 * time.Microsecond}}})
 	}
+	// (a'') a second acquire attempt on the holder's own lock object times out while the lock is held
+	out = append(out, scenario{Name: "ontime/H7/LockWithTimeout(63ms) on the same object + poll IsStale 7ms + TryLock-override 13ms", Mode: "ontime", HoldBeats: 7, Reentrant: 63 * time.Millisecond, Bound: 0, Observers: []observer{
+		{Calls: rep("IsStale", 48), Gap: 7 * time.Millisecond, Offset: 100 * time.Microsecond},
+		{Calls: rep("TryLock-override", 25), Gap: 13 * time.Millisecond, Offset: 200 * time.Microsecond}}})
 	// (b) adversarial
 	out = append(out,
 		scenario{Name: "adversarial/H3/1obs gap60", Mode: "adversarial", HoldBeats: 3, Bound: 2, Observers: []observer{obs(60*time.Millisecond, "IsStale", "TryLock-override")}},
